@@ -164,7 +164,7 @@ pub fn subs(run: &Arc<Run>) -> Vec<Arc<dyn Sub>> {
     // ---- proven: lattice, monotone comparisons only (+ pinned values)
     {
         let grs: Vec<u32> = if thorough { vec![0, 8, 16, 32] } else { vec![0, 16] };
-        let plens: Vec<u32> = if thorough { vec![3, 10, 20, 32] } else { vec![3, 20] };
+        let plens: Vec<u32> = if thorough { vec![3, 10, 20, 24, 28, 30] } else { vec![3, 20] };
         let qs: Vec<u32> = if thorough { (1..=255).collect() } else { (1..=255).filter(|q| *q <= 4 || q % 9 == 0 || *q >= 253).collect() };
         let ng = grs.len() as u64;
         let nq = qs.len() as u64;
@@ -186,6 +186,10 @@ pub fn subs(run: &Arc<Run>) -> Vec<Arc<dyn Sub>> {
                     for bits in [62u32, 64, 128] {
                         for &ll in plens.iter() {
                             let info = || json!({"queries": q, "blowup": b, "grinding": g, "extension_degree": ext, "field_bits": bits, "log2_trace_length": ll});
+                            // contexts whose LDE domain exceeds 2^32 - 1 can neither be constructed nor decoded
+                            if (1u64 << ll) * b as u64 > u32::MAX as u64 {
+                                continue;
+                            }
                             let lv = |o: &ProofOptions, cr: u32| -> Option<u32> {
                                 let p = proof_with(ll, bits, o).ok()?;
                                 pan::catch(|| level(&p, cr, false)).ok()
